@@ -114,7 +114,8 @@ def run(model: Model, rep: Report, tier: str) -> None:
     f3 = model.func(f"{IS}.is_redundant_counterfactual")
     ev = _ev(model)
     vv, val = typed(ev, "variable", V), typed(ev, "value", ("cls", "y0.dsl.Intervention"))
-    r3 = [r for r in return_paths(ev.run(f3, {"variable": vv, "value": val})) if r.value[0] in ("any", "all")]
+    r3_all = return_paths(ev.run(f3, {"variable": vv, "value": val}))
+    r3 = [r for r in r3_all if r.value[0] in ("any", "all")] or [r for r in r3_all if any(c[0] in ("iter-elem", "forall-not") for c in r.conds)]
 
     def polarity(t):
         """body of any(...) as (uses same base?, star relation)"""
@@ -128,8 +129,12 @@ def run(model: Model, rep: Report, tier: str) -> None:
             return None
         return star[0][0]
 
-    pol2 = polarity(r2[0].value) if len(r2) == 1 else None
-    pol3 = polarity(r3[0].value) if len(r3) == 1 else None
+    from .common import quantifier_of
+    from ..symeval import bool_paths
+    q2 = r2[0].value if len(r2) == 1 else quantifier_of(bool_paths(r2))
+    q3 = r3[0].value if len(r3) == 1 else quantifier_of(bool_paths(r3))
+    pol2 = polarity(q2) if q2 is not None else None
+    pol3 = polarity(q3) if q3 is not None else None
     (rep.proven if pol2 == "ne" else rep.refuted)("R7.2", construct(f2, "different-value"), "" if pol2 == "ne" else
                                                    "line 2 must fire iff some subscript has the same base variable as the event's value and a DIFFERENT value", loc(f2))
     (rep.proven if pol3 == "eq" else rep.refuted)("R7.2", construct(f3, "equal-value"), "" if pol3 == "eq" else
